@@ -55,7 +55,7 @@ VLC_TABLES = {"MCBPC_I_TABLE": ("mcbpc_i_table", "BlockPatternEntry"), "MCBPC_P_
               "MODB_TABLE": ("modb_table", ("tup", ("bool", "bool"))), "CBPY_TABLE_INTRA": ("cbpy_table_intra", ("opt", ("list", "bool"))),
               "MVD_TABLE": ("mvd_table", ("opt", "HalfPel")), "TCOEF_TABLE": ("tcoef_table", ("opt", "ShortTCoefficient"))}
 COQ_OF_TYPE = {"Plane": "plane", "H263State": "state", "PictureMap": "pmap", "DecodedPicture": "decoded_picture", "TCoefficient": "tcoef", "Block": "block", "ShortTCoefficient": "short_tcoef", "IntraDc": "Z",
-               "MacroblockType": "mbtype", "BlockPatternEntry": "bpe", "Macroblock": "macroblock", "HalfPel": "Z", "MotionVector": "(Z * Z)", "CodedBlockPattern": "cbp",
+               "DecodedDctBlock": "dct_block", "MacroblockType": "mbtype", "BlockPatternEntry": "bpe", "Macroblock": "macroblock", "HalfPel": "Z", "MotionVector": "(Z * Z)", "CodedBlockPattern": "cbp",
                "SourceFormat": "source_format", "PictureTypeCode": "ptype_code", "PixelAspectRatio": "par_t",
                "MotionVectorRange": "mvrange", "BPictureQuantizer": "Z"}
 
@@ -309,7 +309,7 @@ class PEmitter:
     def has_exit(self, node):
         """an explicit `return` or `break` (a `?` only propagates Err, which the monad does by itself)"""
         if isinstance(node, tuple):
-            if node and node[0] in ("return", "break"):
+            if node and node[0] in ("return", "break", "continue"):
                 return True
             return any(self.has_exit(x) for x in node)
         if isinstance(node, list):
@@ -318,7 +318,7 @@ class PEmitter:
 
     def has_return(self, node):
         if isinstance(node, tuple):
-            if node and node[0] in ("return", "try", "break"):
+            if node and node[0] in ("return", "try", "break", "continue"):
                 return True
             return any(self.has_return(x) for x in node)
         if isinstance(node, list):
@@ -427,8 +427,15 @@ class PEmitter:
             return self.matches(e, env, k)
         if kind == "macro" and e[1] == "unreachable":
             return "Panic PAssert"
+        if kind == "macro" and e[1] == "vec" and len(e[2]) == 1 and e[2][0][0] == "arrayrep" and e[2][0][1] == ("path", ["DecodedDctBlock", "Zero"]):
+            return self.expr(e[2][0][2], env, lambda n, tn, env: k("(repeatZ DctZero %s)" % n, ("list", "DecodedDctBlock"), env), "usize")
         if kind == "return":
             return self.ret(e[1], env)
+        if kind in ("break", "continue"):
+            # inside the body of a translated `loop`: the body's result says whether to go on, with the loop variables as they are
+            if self.loop_vars is None:
+                raise Untranslatable("`%s` outside a translated loop" % kind)
+            return "Ok (%s, (%s))" % ("true" if kind == "continue" else "false", ", ".join(env[v][0] for v in self.loop_vars))
         raise Untranslatable("expression kind %s" % kind)
 
     def bad(self, msg):
@@ -436,6 +443,9 @@ class PEmitter:
 
     # functions of the decoder that are translated / modelled on their own; a call stands for the model's function
     model_fns = {}
+    gob_fields = set()
+    loop_vars = None      # inside a `loop` body: the variables that live across iterations (the reader last)
+    result_fns = {}       # functions whose Result is matched on rather than propagated with `?`
 
     def tvar_default(self):
         # an integer literal with no typed context: Rust falls back to i32
@@ -724,6 +734,13 @@ class PEmitter:
                     return "let* %s := %s %s in\n  %s" % (v, cname, " ".join(acc), k(v, rty, env))
                 return self.expr(args[i], env, lambda a, t, env: go(i + 1, acc + [a], env))
             return go(0, [], env)
+        if f[0] == "var" and f[1] in self.result_fns and args and args[0] == ("var", "reader"):
+            cname, rty = self.result_fns[f[1]]
+            def go(i, acc, env):
+                if i == len(args):
+                    return k("@RES@%s %s %s" % (cname, " ".join(acc), env["$reader"][0]), ("result", rty), env)
+                return self.expr(args[i], env, lambda a, t, env: go(i + 1, acc + [a], env))
+            return go(1, [], env)
         if f[0] == "var" and f[1] in self.model_fns:
             cname, kind, rty = self.model_fns[f[1]]
             def go(i, acc, env):
@@ -736,6 +753,12 @@ class PEmitter:
             return go(0, [], env)
         if f[0] == "path" and f[1] == ["MotionVector", "zero"] and not args:
             return k("mv_zero", "MotionVector", env)
+        if f[0] == "path" and f[1] == ["Vec", "with_capacity"] and len(args) == 1:
+            # the capacity expression is evaluated (it can overflow); the vector starts empty
+            return self.expr(args[0], env, lambda n, tn, env: k("[]", ("list", None), env), "usize")
+        if f[0] == "path" and f[1] == ["DecodedPicture", "new"] and len(args) == 2:
+            # DecodedPicture::new: the plane sizes are translated and bridged as kernels (BridgeKPicture.v); the model's new_decoded
+            return self.expr(args[0], env, lambda a, ta, env: self.expr(args[1], env, lambda b, tb, env: k("(new_decoded %s %s)" % (a, b), ("opt", "DecodedPicture"), env)))
         if f[0] == "path" and f[1] == ["Vec", "new"] and not args:
             return k("[]", ("vec", EVar()), env)
         if f[0] == "path" and f[1] == ["IntraDc", "from_u8"] and len(args) == 1:
@@ -912,6 +935,13 @@ class PEmitter:
                     return k("(match %s with Some %s => %s | None => %s end)" % (a, v, body, d), holder["t"], env)
                 return self.expr(dflt, env, lambda d, td, env: k("(match %s with Some %s => %s | None => %s end)" % (a, v, body, d), holder["t"], env), holder["t"])
             return self.expr(recv[1], env, after)
+        if name == "push" and len(args) == 1 and recv[0] == "var" and recv[1] in env and isinstance(resolve(env[recv[1]][1]), tuple) and resolve(env[recv[1]][1])[0] == "list":
+            vname = recv[1]
+            def pushed_l(a, t, env):
+                v = self.fresh(vname)
+                env2 = dict(env); env2[vname] = (v, env[vname][1])
+                return "let %s := (%s ++ [%s]) in\n  %s" % (v, env[vname][0], a, k("tt", "unit", env2))
+            return self.expr(args[0], env, pushed_l)
         if name == "push" and len(args) == 1 and recv[0] == "var" and recv[1] in env and isinstance(resolve(env[recv[1]][1]), tuple) and resolve(env[recv[1]][1])[0] == "vec":
             vname = recv[1]
             old, told = env[vname]
@@ -958,8 +988,14 @@ class PEmitter:
         if recv == ("var", "self") and name in ("get_last_picture", "get_reference_picture") and not args and "self" in env:
             # translated and bridged on their own (p_get_last_picture = Ok (get_last_picture s))
             return k("(%s %s)" % (name, env["self"][0]), ("opt", "DecodedPicture"), env)
+        if recv == ("var", "self") and name == "is_sorenson" and not args and "self.decoder_options" in env:
+            # H263State::is_sorenson is `self.decoder_options.contains(DecoderOption::SORENSON_SPARK_BITSTREAM)`
+            return k("(sorenson %s)" % env["self.decoder_options"][0], "bool", env)
         def after(a, t, env):
             t = resolve(t)
+            if t == "Error" and not args and name in ("is_macroblock_error", "is_eof_error", "is_gob_error"):
+                # the three classifications of h263::Error are the model's functions of (almost) the same names
+                return k("(%s %s)" % ({"is_macroblock_error": "is_macroblock_error", "is_eof_error": "is_eof", "is_gob_error": "is_gob_error"}[name], a), "bool", env)
             if t == "SourceFormat" and name == "into_width_and_height" and not args:
                 return k("(into_width_and_height %s)" % a, ("opt", ("tup", ("u16", "u16"))), env)
             if t == "f64" and name == "ceil" and not args:
@@ -1080,6 +1116,9 @@ class PEmitter:
         if kind == "let":
             want_t = norm(s[2]) if s[2] is not None else None
             def bound(a, t, env):
+                if isinstance(t, tuple) and t[0] == "result" and s[1][0] == "pid":
+                    env2 = dict(env); env2[s[1][1]] = (a, t)       # a Result kept as a value: the call is placed where it is matched on
+                    return rest(env2)
                 if want_t is not None:
                     t = self.unify(t, want_t, "let annotation") if not (isinstance(resolve(t), tuple)) else t
                 return self.bind_pat(s[1], a, t, env, rest)
@@ -1116,6 +1155,8 @@ class PEmitter:
                 return self.if_stmt(e, env, rest)
             if e[0] == "return":
                 return self.ret(e[1], env)
+            if e[0] in ("break", "continue"):
+                return self.expr(e, env, None)
             if e[0] == "while":
                 return self.while_stmt(e, env, rest)
             if e[0] == "for":
@@ -1267,6 +1308,10 @@ class PEmitter:
                 out |= set(re.findall(r"[A-Za-z_][A-Za-z0-9_']*", m.group(1)))
             for m in re.finditer(r"\|\s*Some\s+([A-Za-z_][A-Za-z0-9_']*)\s*=>", body):
                 out.add(m.group(1))
+            for m in re.finditer(r"\|\s*(?:Ok|Err)\s+\(?([A-Za-z0-9_', ]*)\)?\s*=>", body):
+                out |= set(re.findall(r"[A-Za-z_][A-Za-z0-9_']*", m.group(1)))
+            for m in re.finditer(r"\|\s*\((Mb[A-Za-z]+)\s+([A-Za-z0-9_' ]*)\)\s*=>", body):
+                out |= set(re.findall(r"[A-Za-z_][A-Za-z0-9_']*", m.group(2)))
             return out
         cap = {n: atoms_of(e) for n, e in ents.items()}
         local = {n: bound_in(e["body"]) for n, e in ents.items()}
@@ -1715,6 +1760,8 @@ class PEmitter:
         scrut, arms = e[1], e[2]
         def on_scrut(a, t, env):
             t = resolve(t)
+            if isinstance(t, tuple) and t[0] == "result" and a.startswith("@RES@"):
+                return self.match_result(a[5:], t[1], arms, env, k, want)
             if isinstance(t, tuple) and t[0] == "opt" and isinstance(resolve(t[1]), tuple) and resolve(t[1])[0] == "tup" \
                     and all(is_int(resolve(c)) for c in resolve(t[1])[1]) \
                     and any(p[0] == "pctor" and p[2] and p[2][0][0] == "ptuple" and all(q[0] in ("prange", "pwild", "plit") for q in p[2][0][1]) for p, _, _ in arms):
@@ -1848,6 +1895,14 @@ class PEmitter:
                 raise Untranslatable("fields of the pattern %s" % "::".join(segs))
             p = ("pctor", segs, [q for _, q in p[2]])
             env2, names = dict(env), []
+            if segs == [ty, "Coded"] and ty == "Macroblock":
+                # the PB-frame fields are parsed for their bits only: the model's MbCoded drops them, and so must the pattern
+                ignored = {"coded_block_pattern_b", "motion_vectors_b"}
+                keep = [(q, fp) for q, fp in zip(p[2], pl) if fp[0] not in ignored]
+                if any(q[0] not in ("pwild", "pid") or (q[0] == "pid" and not q[1].startswith("_")) for q, fp in zip(p[2], pl) if fp[0] in ignored):
+                    raise Untranslatable("a PB-frame field of Macroblock::Coded is used")
+                p = ("pctor", segs, [q for q, _ in keep])
+                pl = [fp for _, fp in keep]
             for q, (fn, pt) in zip(p[2], pl):
                 if q[0] == "pid":
                     v = self.fresh(q[1]); env2[q[1]] = (v, norm(pt)); names.append(v)
@@ -1885,7 +1940,7 @@ class PEmitter:
             raise Untranslatable("match guard")
         pats = [self.enum_pattern(p, ty, env) for p, _, _ in arms]
         bodies = [b for _, _, b in arms]
-        is_ret = lambda b: b[0] == "return"
+        is_ret = lambda b: b[0] in ("return", "break", "continue")
         assemble = lambda codes: "match %s with\n  %s\n  end" % (a, "\n  ".join("| %s => (%s)" % (pt, c) for (pt, _), c in zip(pats, codes)))
         effects = any(self.has_return(b) or self.assigned(b, set()) for b in bodies if not is_ret(b))
         if not any(self.has_exit(b) for b in bodies) and not effects:
@@ -1919,13 +1974,83 @@ class PEmitter:
         codes = []
         for (pt, env2), b in zip(pats, bodies):
             if is_ret(b):
-                codes.append(self.ret(b[1], env2))
+                codes.append(self.ret(b[1], env2) if b[0] == "return" else self.expr(b, env2, None))
             else:
                 codes.append(self.block(b, env2, call, want if want is not None else h.get("t")) if b[0] == "block" else self.expr(b, env2, call, want if want is not None else h.get("t")))
         body = k(vp, h.get("t"), envk)
         callf = self.lift(kname, [(vp, h.get("t"))], vars_, params, env, body)
         fix = self.fixer(kname, callf, vars_)
         return assemble([fix(c) for c in codes])
+
+    def match_result(self, code, rty, arms, env, k, want):
+        """match on the Result of a parser call: the Ok arms see the value and the advanced reader, the Err arms the error and the
+        reader as it was (the parser functions are transactions); a panic or fuel exhaustion of the callee propagates"""
+        v, r2, ev = self.fresh("v"), self.fresh("r"), self.fresh("err")
+        ok_arms, err_arms = [], []
+        for p, g, b in arms:
+            if p[0] == "pctor" and p[1] == ["Ok"] and len(p[2]) == 1:
+                if g is not None:
+                    raise Untranslatable("guard on an Ok arm")
+                ok_arms.append((p[2][0], None, b))
+            elif p[0] == "pctor" and p[1] == ["Err"] and len(p[2]) == 1 and p[2][0][0] in ("pid", "pwild"):
+                err_arms.append((p[2][0], g, b))
+            else:
+                raise Untranslatable("arm %r of a match on a Result" % (p,))
+        if not err_arms or err_arms[-1][1] is not None:
+            raise Untranslatable("match on a Result without a final unguarded Err arm")
+        env_ok = dict(env); env_ok["$reader"] = (r2, "reader")
+        rt = resolve(rty)
+        if isinstance(rt, str) and rt in ENUMS:
+            ok_code = self.match_enum(v, rt, ok_arms, env_ok, k, want)
+        elif rt == ("opt", "GroupOfBlocks"):
+            ok_code = self.match_gob(v, ok_arms, env_ok, k, want)
+        else:
+            raise Untranslatable("match on a Result of %r" % (rt,))
+        def arm_code(pat, b):
+            env_e = dict(env)
+            if pat[0] == "pid":
+                env_e[pat[1]] = (ev, "Error")
+            if b[0] == "return" and b[1] is not None and b[1][0] == "call" and b[1][1] == ("var", "Err") and len(b[1][2]) == 1 \
+                    and pat[0] == "pid" and b[1][2][0] == ("var", pat[1]):
+                return "Err %s" % ev
+            return self.block(b, env_e, k, want) if b[0] == "block" else self.expr(b, env_e, k, want)
+        chain = arm_code(err_arms[-1][0], err_arms[-1][2])
+        for pat, g, b in reversed(err_arms[:-1]):
+            if g is None:
+                raise Untranslatable("unreachable Err arm")
+            env_e = dict(env)
+            if pat[0] == "pid":
+                env_e[pat[1]] = (ev, "Error")
+            h = {}
+            def cap(a, t, env3):
+                h["c"] = a
+                return ""
+            self.expr(g, env_e, cap, "bool")
+            chain = "if %s then (%s) else\n  (%s)" % (h["c"], arm_code(pat, b), chain)
+        return ("match %s with\n  | Ok (%s, %s) => (%s)\n  | Err %s => (%s)\n  | Panic pn => Panic pn\n  | OutOfFuel => OutOfFuel\n  end"
+                % (code, v, r2, ok_code, ev, chain))
+
+    def match_gob(self, a, arms, env, k, want):
+        """match on Option<GroupOfBlocks>: the translated decode_gob never builds a GroupOfBlocks (its Coq type is unit), so the
+        fields a `Some` arm reads are taken through uninterpreted functions gob_<field> (section variables of the generated file)"""
+        none = [x for x in arms if (x[0][0] == "pid" and x[0][1] == "None") or (x[0][0] == "ppath" and x[0][1] == ["None"])]
+        some = [x for x in arms if x[0][0] == "pctor" and x[0][1] == ["Some"] and len(x[0][2]) == 1 and x[0][2][0][0] == "pstruct"
+                and x[0][2][0][1] == ["GroupOfBlocks"]]
+        if len(none) != 1 or len(some) != 1 or len(arms) != 2:
+            raise Untranslatable("arms of the match on Option<GroupOfBlocks>")
+        g = self.fresh("g")
+        ft = dict(self.d.structs.get("GroupOfBlocks", []))
+        env_s = dict(env)
+        for f, pat in some[0][0][2][0][2]:
+            if pat[0] == "pid" and not pat[1].startswith("_"):
+                if f not in ft or not is_int(norm(ft[f])):
+                    raise Untranslatable("field %s of GroupOfBlocks" % f)
+                env_s[pat[1]] = ("(gob_%s %s)" % (f, g), norm(ft[f]))
+                self.gob_fields.add(f)
+            elif pat[0] not in ("pid", "pwild"):
+                raise Untranslatable("pattern of a GroupOfBlocks field")
+        body = lambda b, e: self.block(b, e, k, want) if b[0] == "block" else self.expr(b, e, k, want)
+        return "match %s with\n  | None => (%s)\n  | Some %s => (%s)\n  end" % (a, body(none[0][2], env), g, body(some[0][2], env_s))
 
     def match_option(self, a, t, arms, env, k, want):
         some = [x for x in arms if x[0][0] == "pctor" and x[0][1] == ["Some"]]
@@ -2407,9 +2532,9 @@ def gen_loop(repo, status, write):
     statements between the loop and the commit phase (padding, gather, the three idct_channel calls)"""
     fname, rel = "GenPLoop.v", "h263/src/decoder/state.rs"
     body = ("(* GENERATED by tools/rs2v.py (rs2v_parser) from %s -- do not edit. *)\n"
-            "From H263V Require Import base.Prelude base.Checked model.Types model.Tables model.Reader model.Header model.Syntax model.Recon model.Decoder gen.GenPGather.\n"
+            "From H263V Require Import base.Prelude base.Checked model.Types model.Tables model.Reader model.Header model.Syntax model.Recon model.Decoder gen.GenPGather gen.GenPMacroblock gen.GenPState.\n"
             "Create HintDb pgenloop.\n\n" % rel)
-    keys = ["parser.p_coded", "parser.p_epilogue"]
+    keys = ["parser.p_coded", "parser.p_epilogue", "parser.p_loop_body", "parser.p_setup", "parser.p_decode_next_picture"]
     L = ("list", "DecodedDctBlock")
     try:
         src = Source(repo, rel)
@@ -2472,6 +2597,55 @@ def gen_loop(repo, status, write):
         except Untranslatable as ex:
             body += "(* p_coded: untranslatable: %s *)\n\n" % str(ex).replace("*)", "* )")
             status[keys[0]] = "untranslatable: %s" % ex
+        # ---- the whole loop body: one iteration as a function of the loop variables
+        try:
+            em = PEmitter(defs, {"decode_block": ("decode_block", ["DecoderOption", "Picture", "PictureOption", "MacroblockType", "bool"], "Block")}, {})
+            em.model_fns = {"predict_candidate": ("predict_candidate", "res", "MotionVector"), "mv_decode": ("mv_decode", "pure", "MotionVector")}
+            em.result_fns = {"decode_macroblock": ("decode_macroblock", "Macroblock"), "decode_gob": ("p_decode_gob", ("opt", "GroupOfBlocks"))}
+            em.gob_fields = set()
+            em.fname, em.rty = "p_loop", None
+            lvars = ["in_force_quantizer", "predictor_vectors", "macroblock_types", "macroblocks_after_gob", "luma_levels", "chroma_b_levels", "chroma_r_levels"]
+            assigned_in_loop = em.assigned(lbody, set())
+            outer = {st[1][1] for st in stmts[:li[0]] if st[0] == "let" and st[1][0] == "pid"}
+            carried = sorted((assigned_in_loop & outer))
+            if set(carried) != set(lvars):
+                raise Untranslatable("the variables the loop updates are %s" % ", ".join(carried))
+            em.loop_vars = lvars + ["$reader"]
+            env = {"self": ("a_self", "H263State"), "self.decoder_options": ("a_o", "DecoderOption"),
+                   "in_force_quantizer": ("a_q", "u8"), "predictor_vectors": ("a_pvs", ("list", ("mvarr", 4))),
+                   "macroblock_types": ("a_types", ("list", "MacroblockType")), "macroblocks_after_gob": ("a_after", "usize"),
+                   "mb_per_line": ("a_mpl", "usize"), "mb_height": ("a_mbh", "usize"),
+                   "next_decoded_picture": ("a_np", "DecodedPicture"), "next_running_options": ("a_running", "PictureOption"),
+                   "luma_levels": ("a_luma", L), "chroma_b_levels": ("a_cb", L), "chroma_r_levels": ("a_cr", L),
+                   "level_dimensions": ("a_lev", ("tup", ["usize", "usize"])), "$reader": ("r0", "reader")}
+            def fin(a, t, envx):
+                return "Ok (true, (%s))" % ", ".join(envx[n][0] for n in em.loop_vars)
+            if lbody[2] is not None:
+                raise Untranslatable("the loop body ends in an expression")
+            code = em.stmts(lst, 0, None, env, fin, None)
+            st_t = "p_loop_state"
+            rt = "(bool * %s)" % st_t
+            lt, ln, code = em.resolve_lifted(code, rt)
+            fixrt = lambda l: l.replace("res (%s * reader)" % rt, "res %s" % rt)
+            body += "Definition p_loop_state := (Z * list mv4 * list mbtype * Z * list dct_block * list dct_block * list dct_block * reader)%type.\n\n"
+            body += "Section Loop.\n"
+            for f in sorted(em.gob_fields):
+                body += ("(* a field of a GroupOfBlocks: decode_gob as translated never builds one (GenPMacroblock.v: its Coq type is unit),\n"
+                         "   so the arm that reads it is dead and the bridge holds for every way of reading it *)\n"
+                         "Variable gob_%s : unit -> Z.\n" % f)
+            body += "\n" + "".join(fixrt(em.finish(l)) + "\n" for l in lt)
+            body += ("Definition p_loop_body (a_o : dec_opts) (a_np : decoded_picture) (a_running a_mpl a_mbh : Z) (a_lev : Z * Z) (s : p_loop_state) : res %s :=\n"
+                     "  let '(a_q, a_pvs, a_types, a_after, a_luma, a_cb, a_cr, r0) := s in\n  %s.\n\n" % (rt, em.finish(code)))
+            body += "End Loop.\n"
+            for n in ln:
+                body += "#[global] Hint Unfold %s : pgenloop.\n" % n
+            body += ("\n(* the `loop`: iterate the body until it says stop *)\n"
+                     "Definition p_loop (gob_quantizer : unit -> Z) (fuel : nat) (a_o : dec_opts) (a_np : decoded_picture) (a_running a_mpl a_mbh : Z) (a_lev : Z * Z) (s : p_loop_state) : res p_loop_state :=\n"
+                     "  loop_fuel fuel (p_loop_body %sa_o a_np a_running a_mpl a_mbh a_lev) s.\n\n" % ("gob_quantizer " if "quantizer" in em.gob_fields else ""))
+            status["parser.p_loop_body"] = "ok"
+        except Untranslatable as ex:
+            body += "(* p_loop_body: untranslatable: %s *)\n\n" % str(ex).replace("*)", "* )")
+            status["parser.p_loop_body"] = "untranslatable: %s" % ex
         # ---- between the loop and the commit phase
         try:
             idx = max([i for i, st in enumerate(stmts) if contains_call(st, "idct_channel") or contains_call(st, "gather")], default=None)
@@ -2509,6 +2683,56 @@ def gen_loop(repo, status, write):
         except Untranslatable as ex:
             body += "(* p_epilogue: untranslatable: %s *)\n" % str(ex).replace("*)", "* )")
             status[keys[1]] = "untranslatable: %s" % ex
+        # ---- between the prologue and the loop: the loop variables' initial values, the new picture, the level arrays
+        try:
+            last = max([i for i, st in enumerate(stmts[:li[0]]) if st[0] == "let" and st[1] == ("pid", "level_dimensions")], default=None)
+            if last is None:
+                raise Untranslatable("`let level_dimensions` not found")
+            setup = stmts[last + 1: li[0]]
+            em = PEmitter(defs, {}, {})
+            em.fname, em.rty, em.pure = "p_setup", None, True
+            env = {"next_picture": ("a_hdr", "Picture"), "format": ("a_fmt", "SourceFormat"), "mb_per_line": ("a_mpl", "usize"), "mb_height": ("a_mbh", "usize"),
+                   "level_dimensions": ("a_lev", ("tup", ["usize", "usize"])), "$reader": ("tt", "reader")}
+            names = ["in_force_quantizer", "predictor_vectors", "macroblock_types", "macroblocks_after_gob", "next_decoded_picture", "luma_levels", "chroma_b_levels", "chroma_r_levels"]
+            def fin_setup(a, t, envx):
+                missing = [n for n in names if n not in envx]
+                if missing:
+                    raise Untranslatable("the statements before the loop do not define %s" % ", ".join(missing))
+                return "Ok (%s)" % ", ".join(envx[n][0] for n in names)
+            code = em.stmts(setup, 0, None, env, fin_setup, None)
+            if em.lifted:
+                raise Untranslatable("control flow with early exits between the prologue and the loop")
+            body += ("\n(* the statements between the prologue and the loop *)\n"
+                     "Definition p_setup (a_hdr : picture) (a_fmt : source_format) (a_mpl a_mbh : Z) (a_lev : Z * Z) : "
+                     "res (Z * list mv4 * list mbtype * Z * decoded_picture * list dct_block * list dct_block * list dct_block) :=\n  %s.\n" % em.finish(code))
+            status["parser.p_setup"] = "ok"
+            # ---- the whole closure of decode_next_picture, as the five translated ranges in sequence
+            pro = stmts[:last + 1]
+            refs = [st for st in pro if st[0] == "let" and st[1] == ("pid", "reference_picture")]
+            if len(refs) != 1 or refs[0][3] != ("mcall", ("var", "self"), "get_reference_picture", []):
+                raise Untranslatable("`let reference_picture = self.get_reference_picture()` in the prologue")
+            if not all(status.get(k) == "ok" for k in ("parser.p_loop_body", "parser.p_epilogue", "parser.p_setup")):
+                raise Untranslatable("a part of decode_next_picture is untranslated")
+            body += ("\n(* decode_next_picture: the statements of the transaction closure are five consecutive ranges - the prologue (p_prologue,\n"
+                     "   GenPState.v), the set-up, the macroblock loop, the reconstruction (p_epilogue) and the commit phase (p_store_picture,\n"
+                     "   GenPState.v) - and the variables that cross from one range to the next are the ones passed here.  The loop runs on fuel\n"
+                     "   (one unit per iteration; the number of unread bits plus one is enough: proofs/Total3.v). *)\n"
+                     "Definition p_decode_next_picture (gob_quantizer : unit -> Z) (a_self : state) (r0 : reader) : res (state * reader) :=\n"
+                     "  let* (x, r) := p_prologue a_self r0 in\n"
+                     "  let '(next_picture, next_running_options, format, output_dimensions, mb_per_line, mb_height, level_dimensions) := x in\n"
+                     "  let reference_picture := get_reference_picture a_self in\n"
+                     "  let* (q, pvs, types, after, np, luma, cb, cr) := p_setup next_picture format mb_per_line mb_height level_dimensions in\n"
+                     "  let* (q', pvs', types', after', luma', cb', cr', r') :=\n"
+                     "    p_loop gob_quantizer (S (length (rbits r))) (st_opts a_self) np next_running_options mb_per_line mb_height level_dimensions\n"
+                     "           (q, pvs, types, after, luma, cb, cr, r) in\n"
+                     "  let* total := p_capacity mb_per_line mb_height in\n"
+                     "  let* np' := p_epilogue types' pvs' total reference_picture mb_per_line np output_dimensions luma' cb' cr' in\n"
+                     "  Ok (p_store_picture a_self np', r').\n")
+            status["parser.p_decode_next_picture"] = "ok"
+        except Untranslatable as ex:
+            body += "\n(* p_setup / p_decode_next_picture: untranslatable: %s *)\n" % str(ex).replace("*)", "* )")
+            status.setdefault("parser.p_setup", "untranslatable: %s" % ex)
+            status["parser.p_decode_next_picture"] = "untranslatable: %s" % ex
     except Untranslatable as e:
         for k in keys:
             status.setdefault(k, "untranslatable: %s" % e)
